@@ -224,6 +224,187 @@ Definition ggm_to_bincode (k0 k1 : bytes) (g : gstate bytes) : bytes :=
 Definition server_to_bincode (s : server) : bytes :=
   sc_to_bytes (sv_key s) ++ pk_to_bincode (sv_pk s) ++ ggm_to_bincode (sv_k0 s) (sv_k1 s) (sv_ggm s).
 
+(* ---------- reading the exported key state back (bincode::deserialize::<ServerKeyState>) ----------
+   A small reader: every step consumes a prefix and hands back the rest; trailing bytes after the last field are
+   allowed (bincode::deserialize does not reject them).  Lengths are compared as N before any conversion to nat. *)
+Definition rd_bytes (n : nat) (s : bytes) : option (bytes * bytes) :=
+  if Nat.leb n (length s) then Some (firstn n s, skipn n s) else None.
+Definition rd_u64 (s : bytes) : option (N * bytes) :=
+  match rd_bytes 8 s with Some (b, r) => Some (le_of_bytes b, r) | None => None end.
+Fixpoint bits_of_value (n : nat) (v : N) : bits :=
+  match n with O => [] | S k => N.odd v :: bits_of_value k (v / 2) end.
+Fixpoint rd_words (n : nat) (nbits : nat) (s : bytes) : option (bits * bytes) :=
+  match n with
+  | O => Some ([], s)
+  | S k => match rd_u64 s with
+           | None => None
+           | Some (w, r) => match rd_words k (nbits - 64) r with
+                            | None => None
+                            | Some (bs, r') => Some (bits_of_value (Nat.min 64 nbits) w ++ bs, r')
+                            end
+           end
+  end.
+Fixpoint bytes_eqb (a b : bytes) : bool :=
+  match a, b with
+  | [], [] => true
+  | x :: a', y :: b' => N.eqb x y && bytes_eqb a' b'
+  | _, _ => false
+  end.
+Definition bitvec_from_bincode (s : bytes) : option (bits * bytes) :=
+  match rd_u64 s with
+  | None => None
+  | Some (ol, s1) =>
+      if negb (N.eqb ol (N.of_nat (length bitvec_order))) then None else
+      match rd_bytes (length bitvec_order) s1 with
+      | None => None
+      | Some (o, s2) =>
+          if negb (bytes_eqb o bitvec_order) then None else
+          match rd_bytes 2 s2 with
+          | None => None
+          | Some (hd, s3) =>
+              if negb (bytes_eqb hd [64%N; 0%N]) then None else
+              match rd_u64 s3 with
+              | None => None
+              | Some (nb, s4) =>
+                  match rd_u64 s4 with
+                  | None => None
+                  | Some (nw, s5) =>
+                      (* the word count must be the one the bit count needs, and the words must be present *)
+                      if negb (N.eqb nw ((nb + 63) / 64)) then None
+                      else if (N.of_nat (length s5) <? 8 * nw)%N then None
+                      else rd_words (N.to_nat nw) (N.to_nat nb) s5
+                  end
+              end
+          end
+      end
+  end.
+Definition vec_u8_from_bincode (s : bytes) : option (bytes * bytes) :=
+  match rd_u64 s with
+  | None => None
+  | Some (n, r) => if (N.of_nat (length r) <? n)%N then None else rd_bytes (N.to_nat n) r
+  end.
+Fixpoint rd_prefixes (n : nat) (s : bytes) : option (list (bits * bytes) * bytes) :=
+  match n with
+  | O => Some ([], s)
+  | S k => match bitvec_from_bincode s with
+           | None => None
+           | Some (b, r) => match vec_u8_from_bincode r with
+                            | None => None
+                            | Some (sd, r') => match rd_prefixes k r' with
+                                               | None => None
+                                               | Some (l, r'') => Some ((b, sd) :: l, r'')
+                                               end
+                            end
+           end
+  end.
+Fixpoint rd_bitvecs (n : nat) (s : bytes) : option (list bits * bytes) :=
+  match n with
+  | O => Some ([], s)
+  | S k => match bitvec_from_bincode s with
+           | None => None
+           | Some (b, r) => match rd_bitvecs k r with
+                            | None => None
+                            | Some (l, r') => Some (b :: l, r')
+                            end
+           end
+  end.
+(* every element takes at least one byte, so a count above the remaining length cannot be satisfied *)
+Definition rd_count (s : bytes) : option (nat * bytes) :=
+  match rd_u64 s with
+  | None => None
+  | Some (n, r) => if (N.of_nat (length r) <? n)%N then None else Some (N.to_nat n, r)
+  end.
+Definition ggm_from_bincode (s : bytes) : option (bytes * bytes * gstate bytes * bytes) :=
+  match rd_u64 s with
+  | None => None
+  | Some (np, s1) =>
+      if negb (N.eqb np 2) then None else
+      match rd_bytes 32 s1 with
+      | None => None
+      | Some (k0, s2) =>
+          match rd_bytes 32 s2 with
+          | None => None
+          | Some (k1, s3) =>
+              match rd_count s3 with
+              | None => None
+              | Some (n, s4) =>
+                  match rd_prefixes n s4 with
+                  | None => None
+                  | Some (pf, s5) =>
+                      match rd_count s5 with
+                      | None => None
+                      | Some (m, s6) =>
+                          match rd_bitvecs m s6 with
+                          | None => None
+                          | Some (pu, s7) => Some (k0, k1, {| gPrefixes := pf; gPunctured := pu |}, s7)
+                          end
+                      end
+                  end
+              end
+          end
+      end
+  end.
+Fixpoint pk_entries_rest (n : nat) (bs : bytes) (acc : list (N * bytes)) : option (list (N * bytes) * bytes) :=
+  match n with
+  | O => Some (acc, bs)
+  | S k => match bs with
+           | md :: rest => if Nat.leb 32 (length rest)
+                           then pk_entries_rest k (skipn 32 rest) (pk_insert acc md (firstn 32 rest))
+                           else None
+           | [] => None
+           end
+  end.
+Definition pk_from_bincode_rest (s : bytes) : option (pubkey * bytes) :=
+  match rd_bytes 32 s with
+  | None => None
+  | Some (b, s1) => match rd_count s1 with
+                    | None => None
+                    | Some (n, s2) => match pk_entries_rest n s2 [] with
+                                      | None => None
+                                      | Some (es, s3) => Some ({| pk_base := b; pk_md := es |}, s3)
+                                      end
+                    end
+  end.
+Definition server_from_bincode (s : bytes) : option server :=
+  match rd_bytes 32 s with
+  | None => None
+  | Some (kb, s1) =>
+      match sc_canonical kb with
+      | None => None
+      | Some k =>
+          match pk_from_bincode_rest s1 with
+          | None => None
+          | Some (pk, s2) =>
+              match ggm_from_bincode s2 with
+              | None => None
+              | Some (k0, k1, g, _) => Some {| sv_key := k; sv_pk := pk; sv_k0 := k0; sv_k1 := k1; sv_ggm := g |}
+              end
+          end
+      end
+  end.
+
+(* the states for which export followed by import is proved to be the identity (KeyStateFacts.server_roundtrip) *)
+Definition two64 : N := 18446744073709551616%N.
+Fixpoint sorted_tags (l : list (N * bytes)) : bool :=
+  match l with
+  | [] => true
+  | (a, _) :: t => match t with [] => true | (b, _) :: _ => (a <? b)%N && sorted_tags t end
+  end.
+Definition pk_okb (pk : pubkey) : bool :=
+  Nat.eqb (length (pk_base pk)) 32 && forallb (fun e => Nat.eqb (length (snd e)) 32) (pk_md pk)
+  && sorted_tags (pk_md pk) && Nat.leb (length (pk_md pk)) 256.
+Definition small (n : nat) : bool := (N.of_nat n <? two64)%N.
+Definition ggm_okb (k0 k1 : bytes) (g : gstate bytes) : bool :=
+  Nat.eqb (length k0) 32 && Nat.eqb (length k1) 32
+  && forallb (fun ps : bits * bytes => small (length (fst ps)) && small (length (snd ps))) (gPrefixes bytes g)
+  && forallb (fun b : bits => small (length b)) (gPunctured bytes g)
+  && small (length (gPrefixes bytes g)) && small (length (gPunctured bytes g)).
+Definition server_okb (s : server) : bool :=
+  (0 <=? sv_key s) && (sv_key s <? ell) && pk_okb (sv_pk s) && ggm_okb (sv_k0 s) (sv_k1 s) (sv_ggm s).
+
+Definition import_export_ok (s : server) : bool :=
+  server_okb s && match server_from_bincode (server_to_bincode s) with Some _ => true | None => false end.
+
 (* ---------- JSON forms as serde_json writes them (canonical grammar only: no whitespace, this key order) ----------
    Evaluation: an object with key output (base64 string of the 32-byte point) and key proof (null, or an
    object with keys c and s, each an array of 32 numbers).  Point: an array of 32 numbers.                 *)
